@@ -69,6 +69,10 @@ class CMAESDesigner(vza.PartiallySerializableDesigner):
         scale=True,
         flip_sign_for_minimization_metrics=True,
     )
+    # The policy wrappers pass seed=None when no seed was chosen. evojax cannot
+    # take None; without the argument it uses its own fixed default seed.
+    if 'seed' in cma_kwargs and cma_kwargs['seed'] is None:
+      del cma_kwargs['seed']
     self._cma_es_jax = cma_jax.CMA_ES_JAX(
         param_size=self._num_params, **cma_kwargs)
     self._trial_population = queue.Queue(
